@@ -35,6 +35,51 @@ class Handles:
         return ca.veccat(*lst) if lst else None
 
 
+def scaled_handles(spec, meth):
+    """C14: (label, handle, declared scale column) for every quantity the user declared with a scale.
+    Property: the physical quantity is scale * (its own solver variable), scale as given at the declaration."""
+    N, M = spec.N, spec.M
+    def col(key, sizes):
+        parts = []
+        for i, n in enumerate(sizes):
+            sc = spec._scale(key, i, n)
+            sc = ca.DM(sc)
+            parts.append(ca.repmat(sc, n, 1) if sc.numel() == 1 and n != 1 else sc)
+        return ca.vcat(parts) if parts else None
+    out = []
+    sx = col("x", spec.states)
+    if sx is not None:
+        for k in (range(N + 1) if spec.method != "SS" else [0]):
+            out.append(("X[%d]" % k, meth.X[k], sx))
+        if spec.method == "DC":
+            for k in range(N):
+                for i in range(M):
+                    Xc = ca.MX(meth.Xc[k][i])
+                    for j in range(Xc.shape[1]):
+                        out.append(("Xc[%d][%d][:,%d]" % (k, i, j), Xc[:, j], sx))
+    su = col("u", spec.controls)
+    if su is not None:
+        for k in range(N):
+            out.append(("U[%d]" % k, meth.U[k], su))
+    sz = col("z", spec.algebraics)
+    if sz is not None and spec.method == "DC":
+        for k in range(N):
+            for i in range(M):
+                Zc = ca.MX(meth.Zc[k][i])
+                for j in range(Zc.shape[1]):
+                    out.append(("Zc[%d][%d][:,%d]" % (k, i, j), Zc[:, j], sz))
+    sv = col("v", spec.variables.get("", []))
+    if sv is not None:
+        out.append(("V", ca.MX(meth.V)[:sv.numel()], sv))
+    for kind, lst in (("control", meth.V_control), ("control+", meth.V_control_plus)):
+        for i, n in enumerate(spec.variables.get(kind, [])):
+            sc = ca.DM(spec._scale("v" + kind, i, n))
+            sc = ca.repmat(sc, n, 1) if sc.numel() == 1 and n != 1 else sc
+            for k in range(len(lst[i])):
+                out.append(("V_%s[%d][%d]" % (kind, i, k), lst[i][k], sc))
+    return out
+
+
 # ---------------------------------------------------------------------------------------
 # time grid  (C06)
 # ---------------------------------------------------------------------------------------
